@@ -399,7 +399,8 @@ type mismatch struct {
 
 // histInfo: what the failing history looked like, for the known-finding predicates
 type histInfo struct {
-	dropped        map[int]bool // series dropped from the index by an acknowledged drop step and not re-created since
+	dropped        map[int]bool // series dropped from the index by an acknowledged drop step and not live now
+	ever           map[int]bool // series ever dropped by a drop step of this history
 	dropSinceOpen  map[int]bool // ... and no reopen/crash since that drop (the cache still is the one that saw the drop)
 	keep           bool
 	cacheOn        bool
@@ -531,7 +532,7 @@ func compare(got, exp *obsT, h *histInfo) (out []*mismatch) {
 			}
 		}
 	}
-	return nil
+	return out
 }
 
 func rawDrift(raw *rawT, exp *obsT) []string {
@@ -637,6 +638,33 @@ func kindClass(k string) string {
 		return "ttomb"
 	}
 	return k
+}
+
+// alignEnts gives every entry the real code appended during one operation the spec's expectation. The spec's history is
+// generated without log roll-over, the real index may have rolled: then Partition.DropMeasurement also writes tombstones for
+// the series still listed by older files. Inside one measurement-drop run (tag key/value tombstones, series tombstones, up to
+// the measurement tombstone) all entries carry the same expectation, so extra entries of those kinds inherit their
+// predecessor's; the operation's own entries and the measurement tombstones must match one to one.
+func alignEnts(kinds []string, spec []entT) ([]entT, bool) {
+	var out []entT
+	j := 0
+	for _, k := range kinds {
+		c := kindClass(k)
+		for c == "mtomb" && j < len(spec) && kindClass(spec[j].K) != "mtomb" && (kindClass(spec[j].K) == "tomb" || kindClass(spec[j].K) == "ttomb") && len(out) > 0 {
+			j++ // the spec wrote more run entries than the real code
+		}
+		if j < len(spec) && kindClass(spec[j].K) == c {
+			out = append(out, entT{K: k, Exp: spec[j].Exp})
+			j++
+			continue
+		}
+		if (c == "tomb" || c == "ttomb") && len(out) > 0 && kindClass(out[len(out)-1].K) != "add" {
+			out = append(out, entT{K: k, Exp: out[len(out)-1].Exp})
+			continue
+		}
+		return nil, false
+	}
+	return out, j == len(spec)
 }
 
 // parseLog returns the end offsets and kinds of the valid entries at the head of a log file written by the real code
@@ -793,9 +821,10 @@ func run(c *caseT, renv *rt.Env) rt.Result {
 	for _, s := range c.Steps {
 		fmt.Fprintf(hsh, "|%s%v%d", s.A, s.SS, s.N)
 	}
+	sig := fmt.Sprintf("%016x", hsh.Sum64())
 	rng := rand.New(rand.NewSource(int64(hsh.Sum64())))
 
-	h := &histInfo{dropped: map[int]bool{}, dropSinceOpen: map[int]bool{}, keep: c.KeepSfile, cacheOn: c.CacheSize > 0, tab: c.Tab}
+	h := &histInfo{dropped: map[int]bool{}, ever: map[int]bool{}, dropSinceOpen: map[int]bool{}, keep: c.KeepSfile, cacheOn: c.CacheSize > 0, tab: c.Tab}
 	var glob []entT // per-entry expectations of every acknowledged log entry, in order (partition 0; only meaningful with 1 partition)
 	aligned := c.Parts == 1
 	evals := 0
@@ -859,7 +888,6 @@ func run(c *caseT, renv *rt.Env) rt.Result {
 				return rt.Fail(i, "CreateSeriesListIfNotExists: "+err.Error(), err.Error(), nil)
 			}
 			for _, x := range s.SS {
-				delete(h.dropped, x)
 				delete(h.dropSinceOpen, x)
 			}
 		case "drop":
@@ -895,7 +923,7 @@ func run(c *caseT, renv *rt.Env) rt.Result {
 				}
 			}
 			for _, x := range s.SS {
-				h.dropped[x] = true
+				h.ever[x] = true
 				h.dropSinceOpen[x] = true
 			}
 		case "compact":
@@ -952,18 +980,6 @@ func run(c *caseT, renv *rt.Env) rt.Result {
 			glob = glob[:s.N]
 			sawCrash = true
 			h.dropSinceOpen = map[int]bool{}
-			// series whose drop was lost are live again; series whose creation was lost are gone: recompute from exp
-			live := map[int]bool{}
-			for _, m := range absMeas {
-				for _, x := range s.Exp.Mser[m] {
-					live[x] = true
-				}
-			}
-			for x := range h.dropped {
-				if live[x] {
-					delete(h.dropped, x)
-				}
-			}
 		default:
 			return rt.Infra("unknown action " + s.A)
 		}
@@ -974,6 +990,7 @@ func run(c *caseT, renv *rt.Env) rt.Result {
 			return rt.Fail(i, "observation failed: "+err.Error(), err.Error(), nil)
 		}
 		evals++
+		h.dropped = droppedNow(h.ever, s.Exp)
 		if r := check(i, compare(got, s.Exp, h), "after "+s.A+": "); r != nil {
 			return *r
 		}
@@ -1035,20 +1052,20 @@ func run(c *caseT, renv *rt.Env) rt.Result {
 				kinds = append(kinds, ka[len(kb):]...)
 			}
 			if okParse {
-				same := len(kinds) == len(s.Ents)
-				for j := 0; same && j < len(kinds); j++ {
-					same = kindClass(kinds[j]) == kindClass(s.Ents[j].K)
-				}
-				if !same {
+				mapped, ok := alignEnts(kinds, s.Ents)
+				if !ok {
 					driftSet["log_entry_sequence_differs_from_spec"] = true
 					aligned = false
+					glob = append(glob, s.Ents...)
+				} else {
+					glob = append(glob, mapped...)
 				}
 			} else {
 				// cannot see what was appended (file compacted during the step): trust the spec's count but stop sweeping
 				driftSet["log_entries_not_observable_(compacted_during_step)"] = true
 				aligned = false
+				glob = append(glob, s.Ents...)
 			}
-			glob = append(glob, s.Ents...)
 		}
 
 		// ---- old/new manifest images around a compaction
@@ -1110,14 +1127,17 @@ func run(c *caseT, renv *rt.Env) rt.Result {
 				continue
 			}
 			// candidate cuts: every entry boundary (losing >= 1 entry) and three offsets inside every entry
-			type cutT struct{ off, surv int }
+			// ... and, per entry, one image where a single bit of the entry is flipped and nothing is cut (corrupt: >= 0 is the
+			// byte): LogFile.open must stop at the first entry whose checksum does not validate, exactly like a cut before it.
+			type cutT struct{ off, surv, corrupt int }
 			var cuts []cutT
 			start := 0
 			for j := 0; j < na; j++ {
-				cuts = append(cuts, cutT{start, j})
+				cuts = append(cuts, cutT{start, j, -1})
 				if sz := ends[j] - start; sz > 1 {
-					cuts = append(cuts, cutT{start + 1, j}, cutT{start + sz/2, j}, cutT{ends[j] - 1, j})
+					cuts = append(cuts, cutT{start + 1, j, -1}, cutT{start + sz/2, j, -1}, cutT{ends[j] - 1, j, -1})
 				}
+				cuts = append(cuts, cutT{len(data), j, start + rng.Intn(ends[j]-start)})
 				start = ends[j]
 			}
 			rng.Shuffle(len(cuts), func(a, b int) { cuts[a], cuts[b] = cuts[b], cuts[a] })
@@ -1129,7 +1149,13 @@ func run(c *caseT, renv *rt.Env) rt.Result {
 				for n, b := range after {
 					img[n] = b
 				}
-				img[act] = data[:ct.off]
+				if ct.corrupt >= 0 {
+					cp := append([]byte{}, data...)
+					cp[ct.corrupt] ^= 1 << uint(rng.Intn(8))
+					img[act] = cp
+				} else {
+					img[act] = data[:ct.off]
+				}
 				if err := writeDir(imgDir, img); err != nil {
 					return rt.Infra(err.Error())
 				}
@@ -1143,22 +1169,14 @@ func run(c *caseT, renv *rt.Env) rt.Result {
 				g2, _, err := e.observeImage(imgDir)
 				evals++
 				where := fmt.Sprintf("crash image after step %d, active log %s cut at byte %d of %d (%d of %d acknowledged entries survive): ", i, filepath.Base(act), ct.off, len(data), nsurv, len(glob))
+				if ct.corrupt >= 0 {
+					where = fmt.Sprintf("image after step %d, active log %s with one bit of byte %d flipped (entries before it: %d of %d acknowledged): ", i, filepath.Base(act), ct.corrupt, nsurv, len(glob))
+				}
 				if err != nil {
 					return rt.Fail(i, where+"index does not open: "+err.Error(), err.Error(), nil)
 				}
-				// the cut history: series dropped after the cut are live again
-				h2 := &histInfo{dropped: map[int]bool{}, dropSinceOpen: map[int]bool{}, keep: h.keep, cacheOn: h.cacheOn, tab: h.tab}
-				liveCut := map[int]bool{}
-				for _, m := range absMeas {
-					for _, x := range exp.Mser[m] {
-						liveCut[x] = true
-					}
-				}
-				for x := range h.dropped {
-					if !liveCut[x] {
-						h2.dropped[x] = true
-					}
-				}
+				// in the cut history a series is "dropped" if some drop step ever removed it and it is not live at the cut
+				h2 := &histInfo{dropped: droppedNow(h.ever, exp), dropSinceOpen: map[int]bool{}, keep: h.keep, cacheOn: h.cacheOn, tab: h.tab}
 				if r := check(i, compare(g2, exp, h2), where); r != nil {
 					return *r
 				}
@@ -1179,12 +1197,30 @@ func run(c *caseT, renv *rt.Env) rt.Result {
 	if firstKnown != nil {
 		firstKnown.Evals = evals
 		firstKnown.Drift = drift
+		firstKnown.Sig = sig
+		firstKnown.Nontrivial = nontrivial
 		firstKnown.Extra["known_patterns_seen"] = knownSeen
 		firstKnown.Extra["structures"] = sl
 		return *firstKnown
 	}
-	return rt.Result{OK: true, Evals: evals, Nontrivial: nontrivial, Drift: drift,
+	return rt.Result{OK: true, Evals: evals, Nontrivial: nontrivial, Drift: drift, Sig: sig,
 		Extra: map[string]interface{}{"structures": sl, "idxfile": sawIdxFile, "roll": sawRoll}}
+}
+
+func droppedNow(ever map[int]bool, exp *obsT) map[int]bool {
+	live := map[int]bool{}
+	for _, m := range absMeas {
+		for _, x := range exp.Mser[m] {
+			live[x] = true
+		}
+	}
+	out := map[int]bool{}
+	for x := range ever {
+		if !live[x] {
+			out[x] = true
+		}
+	}
+	return out
 }
 
 func emptyObs() *obsT {
